@@ -269,8 +269,9 @@ type fixture struct {
 	enc      sync.Map                     // string(block id) -> encoded block, registered BEFORE AddBlock
 	recent   [64]atomic.Pointer[recentID] // id last committed at height h, slot h%64
 	tip      atomic.Uint32                // height last published by the writer (approximate for readers)
-	maxDepth uint32                       // the writer never goes more than this below the highest height reached (0 = 10)
-	maxRun   int                          // longest run of consecutive removals/additions (0 = 5)
+	hist     *chainHist
+	maxDepth uint32 // the writer never goes more than this below the highest height reached (0 = 10)
+	maxRun   int    // longest run of consecutive removals/additions (0 = 5)
 }
 
 func mkBlock(r *hx.Rng, height uint32, prev []byte, ntx int) *blockchain.Block {
@@ -318,7 +319,7 @@ func newFixtureCache(c *ctl, r *hx.Rng, slot, height, ntx, cache int) *fixture {
 	if err != nil {
 		panic(err)
 	}
-	f := &fixture{database: database}
+	f := &fixture{database: database, hist: newChainHist()}
 	f.chain = blockchain.NewChain(&blockchain.ChainConfig{ChainID: []byte{4, 0, 0, 0}, MaxTransactionsLength: 1 << 24, MaxBlockCache: cache, KeepEventsForHeights: -1})
 	genesis := mkBlock(r, 0, make([]byte, 32), 0)
 	f.chain.Init(genesis, database)
@@ -328,6 +329,7 @@ func newFixtureCache(c *ctl, r *hx.Rng, slot, height, ntx, cache int) *fixture {
 		panic(err)
 	}
 	f.blocks = []*blockchain.Block{genesis}
+	f.hist.setup(0, string(genesis.Header.ID))
 	for h := 1; h <= height; h++ {
 		b := mkBlock(r, uint32(h), f.blocks[h-1].Header.ID, ntx)
 		f.register(b, ntx)
@@ -335,6 +337,7 @@ func newFixtureCache(c *ctl, r *hx.Rng, slot, height, ntx, cache int) *fixture {
 			panic(err)
 		}
 		f.blocks = append(f.blocks, b)
+		f.hist.setup(uint32(h), string(b.Header.ID))
 		c.tick(slot)
 	}
 	f.tip.Store(uint32(height))
@@ -358,11 +361,13 @@ func (f *fixture) churn(c *ctl, slot int, r *hx.Rng, minH uint32, ntx int) {
 	for !c.stopped() {
 		for a := 1 + r.Intn(run); a > 0 && !c.stopped(); a-- {
 			b := mkBlock(r, cur+1, own[cur].Header.ID, ntx)
-			f.register(b, ntx)
+			f.register(b, ntx) // content only (for byte comparison); currency is decided by the history bracket
+			f.hist.begin(cur+1, string(b.Header.ID), string(b.Header.ID))
 			if err := f.chain.AddBlock(f.database.NewBatch(), b, []*blockchain.Event{}, 0, false); err != nil {
 				c.fail("AddBlock(height %d): %v", cur+1, err)
 				return
 			}
+			f.hist.end()
 			own = append(own, b)
 			cur++
 			f.tip.Store(cur)
@@ -375,10 +380,12 @@ func (f *fixture) churn(c *ctl, slot int, r *hx.Rng, minH uint32, ntx int) {
 			if cur <= minH || cur+depth <= maxEver {
 				break
 			}
+			f.hist.begin(cur, "", string(own[cur-1].Header.ID))
 			if err := f.chain.RemoveBlock(f.database.NewBatch(), false); err != nil {
 				c.fail("RemoveBlock(height %d): %v", cur, err)
 				return
 			}
+			f.hist.end()
 			own = own[:cur]
 			cur--
 			f.tip.Store(cur)
@@ -418,6 +425,19 @@ func scenarioCache(cfg config, r *hx.Rng) (rec, []mmRec) {
 		c.join(&wg)
 		c.setParam("torn_reads", int(torn.Load()))
 	})
+}
+
+// tipInBracket: the tip a reader was given must have been the chain tip in some state between the writer operation that
+// had completed when the call started and the one that may be in progress when it returned.
+func (f *fixture) tipInBracket(c *ctl, site string, b *blockchain.Block, s0 uint64) {
+	s1 := f.hist.seq.Load()
+	if b == nil || b.Header == nil {
+		c.fail("nil-tip: %s returned a nil block", site)
+		return
+	}
+	if !f.hist.tipCurrent(s0, s1, string(b.Header.ID)) {
+		c.fail("stale-tip: %s returned the block of height %d, which was not the tip in any chain state between writer operations %d and %d", site, b.Header.Height, s0, s1+1)
+	}
 }
 
 func (f *fixture) cacheReader(c *ctl, slot int, r *hx.Rng, minH uint32, torn *atomic.Int64) {
@@ -468,15 +488,23 @@ func (f *fixture) cacheReader(c *ctl, slot int, r *hx.Rng, minH uint32, torn *at
 		h := uint32(tip - 12 + r.Intn(15))
 		switch r.Intn(8) {
 		case 0:
-			complete("Chain.LastBlock", f.chain.LastBlock())
+			s0 := f.hist.seq.Load()
+			b := f.chain.LastBlock()
+			f.tipInBracket(c, "Chain.LastBlock", b, s0)
+			complete("Chain.LastBlock", b)
 		case 1:
+			s0 := f.hist.seq.Load()
 			if b, err := da.GetLastBlock(); err != nil {
-				c.fail("DataAccess.GetLastBlock: %v", err)
+				c.fail("nil-tip: DataAccess.GetLastBlock: %v", err)
 			} else {
+				f.tipInBracket(c, "DataAccess.GetLastBlock", b, s0)
 				complete("DataAccess.GetLastBlock", b)
 			}
 		case 2:
-			complete("DataAccess.CachedLastBlock", da.CachedLastBlock())
+			s0 := f.hist.seq.Load()
+			b := da.CachedLastBlock()
+			f.tipInBracket(c, "DataAccess.CachedLastBlock", b, s0)
+			complete("DataAccess.CachedLastBlock", b)
 		case 3:
 			da.Cached(h)
 		case 4:
@@ -1100,7 +1128,7 @@ func scenarioDiffdb(cfg config, r *hx.Rng) (rec, []mmRec) {
 
 func main() {
 	out := flag.String("out", "", "output JSONL file (required)")
-	scenario := flag.String("scenario", "all", "cache|bulk|torn|certpool|events|evclose|evquit|diffdb|diffnest|syncfan|all")
+	scenario := flag.String("scenario", "all", "cache|bulk|torn|certpool|events|evclose|evquit|diffdb|diffnest|syncfan|canary|all")
 	readers := flag.Int("readers", 8, "number of concurrent reader / worker goroutines")
 	ms := flag.Int("ms", 1500, "stress duration per scenario in milliseconds")
 	rounds := flag.Int("rounds", 200, "bulk lookup rounds (each of the concurrent goroutines performs one lookup per round)")
@@ -1120,10 +1148,10 @@ func main() {
 		name string
 		fn   func(config, *hx.Rng) (rec, []mmRec)
 	}
-	all := []sc{{"cache", scenarioCache}, {"bulk", scenarioBulk}, {"torn", scenarioTorn}, {"certpool", scenarioCertpool}, {"events", scenarioEvents}, {"evclose", scenarioEvClose}, {"evquit", scenarioEvQuit}, {"diffdb", scenarioDiffdb}, {"syncfan", scenarioSyncFan}, {"diffnest", scenarioDiffNest}}
+	all := []sc{{"cache", scenarioCache}, {"bulk", scenarioBulk}, {"torn", scenarioTorn}, {"certpool", scenarioCertpool}, {"events", scenarioEvents}, {"evclose", scenarioEvClose}, {"evquit", scenarioEvQuit}, {"diffdb", scenarioDiffdb}, {"syncfan", scenarioSyncFan}, {"diffnest", scenarioDiffNest}, {"canary", scenarioCanary}}
 	todo := []sc{}
 	for _, s := range all {
-		if *scenario == "all" || *scenario == s.name {
+		if (*scenario == "all" && s.name != "canary") || *scenario == s.name {
 			todo = append(todo, s)
 		}
 	}
